@@ -132,6 +132,16 @@ def make_frame(ctx, pu, kind, tagged, npay):
          list(ctx.bytes('ipsrc', 4)) + list(ctx.bytes('ipdst', 4)) + opts
     b += [0x08, 0x00] + ip + seg
     f = Frame(b, tagged, 'ip', l4, 5 + len(opts) // 4)
+  elif kind == 'udp_frag1':
+    # the first fragment of a UDP datagram (MF set, offset 0): the UDP length field counts the whole datagram, the checksum covers data that is
+    # not in this frame
+    sp = ctx.int('sport', 0, 0xffff); dp = ctx.int('dport', 0, 0xffff)
+    for v in SPECIAL_UDP: ctx.assume(ctx.And(sp != v, dp != v))
+    seg = be(sp, 2) + be(dp, 2) + be(8 + npay + ctx.int('later_fragments', 1, 1400), 2) + be(ctx.int('udpcsum', 0, 0xffff), 2) + pay
+    ip = [0x45, ctx.int('tos', 0, 255)] + be(20 + len(seg), 2) + be(ctx.int('ipid', 0, 0xffff), 2) + [0x20, 0] + [ctx.int('ttl', 0, 255), 17, 0, 0] + \
+         list(ctx.bytes('ipsrc', 4)) + list(ctx.bytes('ipdst', 4))
+    b += [0x08, 0x00] + ip + seg
+    f = Frame(b, tagged, 'ip', None, 5)
   elif kind == 'qinq':
     # a second 802.1Q tag behind the outer one (tagged=True gives the outer tag): for the switch the inner tag is payload - strip_vlan removes
     # exactly one tag, set_vlan_* rewrite the outer one
@@ -238,7 +248,7 @@ def h_rewrite(ctx, kind, tagged, codes, npay=2):
     if d[0] == 'out': expect.append((d[1], list(cur.b)))
     else: ref_apply(ctx, pu, cur, d)
   ctx.check('number of emitted frames', len(outs) == len(expect))
-  tag = '[icmp-quote-truncated] ' if kind == 'icmperr_trunc' else ''
+  tag = '[icmp-quote-truncated] ' if kind == 'icmperr_trunc' else '[udp-first-fragment] ' if kind == 'udp_frag1' else ''
   for (p, got), (ep, eb) in zip(outs, expect):
     ctx.check('egress port', p == ep)
     ctx.check(tag + 'emitted length', len(got) == len(eb))
@@ -246,7 +256,7 @@ def h_rewrite(ctx, kind, tagged, codes, npay=2):
   for p in (1, 2, 3, 4):
     st = sw.port_stats[p]
     mine = [eb for ep, eb in expect if bool(ep == p)]
-    ctx.check('tx counters equal the frames and bytes actually transmitted',
+    ctx.check(('[udp-first-fragment] ' if kind == 'udp_frag1' else '') + 'tx counters equal the frames and bytes actually transmitted',
               ctx.And(st.tx_packets == len(mine), st.tx_bytes == sum(len(eb) for eb in mine)))
   ctx.witness('done')
 
@@ -410,6 +420,7 @@ def obligations(tier):
       cases.append(dict(kind='icmperr', tagged=t, codes=[c, A_OUT]))
     cases.append(dict(kind='icmperr', tagged=t, codes=[A_OUT]))
   cases.append(dict(kind='icmperr_trunc', tagged=False, codes=[A_OUT]))
+  cases.append(dict(kind='udp_frag1', tagged=False, codes=[A_OUT]))
   # pairs: output between rewrites (snapshot semantics), and rewrite pairs
   pairs = [(a, b) for a in REWRITES for b in REWRITES]
   for i, (a, b) in enumerate(pairs):
